@@ -29,7 +29,7 @@ RULE = ("seeded histories: a tree of up to 5 Sites (depth <= 3) with 3-12 leaves
         "prefixes, empty components and the Uri-Path-Abbrev paths; 10-45 timed operations: add_resource / "
         "remove_resource on any site (also replacing, also leaf and nested site on one path, also exactly at / 1 us "
         "around the arrival of a request), GETs for exact, extended, truncated, empty-component, trailing-slash and "
-        "root paths, Uri-Path-Abbrev (valid, unknown, conflicting), /.well-known/core without and with one RFC 6690 "
+        "root paths (a fifth of them as PUT with a body sent in one labelled or two Block1 blocks), Uri-Path-Abbrev (valid, unknown, conflicting), /.well-known/core without and with one RFC 6690 "
         "filter (rt, if, ct, href, title; exact and trailing *); ~50 % of runs with loss / duplication. "
         "Non-trivial = a fault fired, or a registration changed while a request was being rendered, or an operation "
         "coincided with an arrival; distinct = distinct (event class, link, fate) sequence hash.")
@@ -50,7 +50,8 @@ ASSUMPTIONS = ["a request is routed at the virtual instant its first copy reache
                "operations that coincide with an arrival (|dt| <= 1e-9 s) may be seen or not"]
 EXPECTED_PROBES = ["routed_leaf", "routed_nested", "routed_404", "pc_terminal", "exact_over_prefix", "longest_of_several",
                    "subsite_root_slash", "abbrev_ok", "abbrev_bad", "wkc_plain", "wkc_filtered", "hidden_present",
-                   "changed_while_rendering", "op_arrival_tie", "removed_then_404", "empty_component"]
+                   "changed_while_rendering", "op_arrival_tie", "removed_then_404", "empty_component",
+                   "block1_request", "block1_uri_checked"]
 
 TOL = common.TOL
 LAT = faults.LAT
@@ -358,6 +359,11 @@ def gen(r, tier):
                 path = base + [r.choice(COMPS), r.choice(COMPS)]
             if r.chance(0.3):
                 q = ["tag=%d" % len(ops)]
+            if r.chance(0.2):
+                # the request carries a body the server assembles from Block1 blocks (1 = a single block that is
+                # labelled with Block1, 2 = two blocks): routing and URI reconstruction must not depend on that
+                op["b1"] = r.choice([1, 2])
+                q = ["tag=%d" % len(ops)]  # (simultaneous transfers to one resource differ in their cache key)
         op["path"] = path[:6]
         op["q"] = q
         ops.append(op)
@@ -491,6 +497,10 @@ class Client(ScriptedEndpoint):
             return
         if msg["code"] >= 64:
             self.responses.setdefault(msg["token"], []).append((self.loop.now, msg))
+            nxt = getattr(self, "continuations", {}).get(msg["token"])
+            if msg["code"] == rc.code(2, 31) and nxt is not None and not nxt[0]:
+                nxt[0] = True
+                nxt[1]()
             if msg["type"] == rc.CON:
                 self.send(src, msg={"type": rc.ACK, "code": 0, "mid": msg["mid"], "token": b"", "options": [],
                                     "payload": b""})
@@ -529,6 +539,16 @@ def execute(sim, scn):
             if self.spec.get("delay"):
                 await asyncio.sleep(self.spec["delay"])
             return Message(payload=json.dumps(info).encode("utf-8"))
+
+        async def render_put(self, request):
+            from aiocoap.numbers.codes import Code
+
+            resp = await self.render_get(request)
+            resp.code = Code.CONTENT
+            info = json.loads(resp.payload)
+            info["body"] = len(request.payload)
+            resp.payload = json.dumps(info).encode("utf-8")
+            return resp
 
     class PathLeaf(Leaf, resource.PathCapable):
         pass
@@ -577,11 +597,16 @@ def execute(sim, scn):
     loop.run_until_complete(setup())
     client = Client(sim, common.PEER_IPS[0], 40100)
     arrivals = {}  # token -> t_srv
+    block_arrivals = {}  # token -> {block number: t_srv}
+    client.continuations = {}
 
     def on_deliver(entry, copy, data):
         m = entry["msg"]
         if entry["dst"] == server_addr and m is not None and 1 <= m["code"] <= 31 and entry["deliveries"][-1][2]:
             arrivals.setdefault(m["token"], loop.now)
+            b1 = rc.opt1(m, rc.BLOCK1)
+            if b1 is not None:
+                block_arrivals.setdefault(m["token"], {}).setdefault(rc.block_value(b1)[0], loop.now)
 
     sim.net.deliver_taps.append(on_deliver)
 
@@ -592,6 +617,20 @@ def execute(sim, scn):
         if op.get("abbrev") is not None:
             options.append((URI_PATH_ABBREV, rc.uint_bytes(op["abbrev"])))
         options += [(rc.URI_QUERY, s.encode("utf-8")) for s in op.get("q") or []]
+        if op.get("b1"):
+            sim.probe("block1_request")
+            body = bytes((i + k) & 0xFF for k in range(21))
+
+            def block(num, more, szx, payload):
+                opts = sorted(options + [(rc.BLOCK1, rc.block_bytes(num, more, szx))], key=lambda o: o[0])
+                client.send(server_addr, msg={"type": rc.CON, "code": rc.PUT, "mid": client.next_mid(), "token": token,
+                                              "options": opts, "payload": payload})
+            if op["b1"] == 1:
+                block(0, False, 6, body)
+            else:
+                client.continuations[token] = [False, lambda: block(1, False, 0, body[16:])]
+                block(0, True, 0, body[:16])
+            return
         client.send(server_addr, msg={"type": rc.CON, "code": rc.GET, "mid": client.next_mid(), "token": token,
                                       "options": options, "payload": b""})
 
@@ -660,6 +699,18 @@ def execute(sim, scn):
         if t_srv is None or not resps:
             continue
         resp = resps[0][1]
+        if op.get("b1") == 2:
+            finals = [(t, m) for (t, m) in resps if m["code"] != rc.code(2, 31)]
+            if not finals:
+                continue  # the transfer did not get to its end (loss)
+            resp = finals[0][1]
+            if finals[0] is not resps[0]:
+                t_first = t_srv
+                t_srv = block_arrivals.get(token, {}).get(1)
+                if t_srv is None:
+                    continue
+                if any(t_first - TOL <= x <= t_srv + TOL for x in times):
+                    continue  # the site changed between the two blocks: which resource holds which block is open
         code = (resp["code"] >> 5, resp["code"] & 31)
         ident = {"op_index": i, "op": clean(op), "t_srv": t_srv, "answered": "%d.%02d" % code}
         path, how = expand(op)
@@ -698,6 +749,8 @@ def execute(sim, scn):
                     observed = ("other",)
         else:
             observed = ("code", code)
+        if op.get("b1") and code == (4, 5):
+            continue  # a resource without PUT (the discovery resource): not about routing
         exp_leaf_ids = [o[1] for o in acceptable if o[0] == "leaf"]
         is_wkc = observed == ("wkc",) and any(x in wkc_ids for x in exp_leaf_ids)
         ok = observed in acceptable or is_wkc
@@ -771,6 +824,11 @@ def execute(sim, scn):
             if list(info.get("query") or []) != list(op.get("q") or []):
                 sim.violation("C17/handler-saw-wrong-query", dict(ident, got=info.get("query")))
                 return
+            if op.get("b1"):
+                sim.probe("block1_uri_checked")
+                if info.get("body") != 21:
+                    sim.violation("C17/handler-saw-wrong-body", dict(ident, body=info.get("body")))
+                    return
         if not is_wkc:
             continue
         if how == "abbrev":
